@@ -364,6 +364,30 @@ Theorem fprintf_is_translation w tr buf x fmt gargs :
   length buf = N.to_nat kfmt_numFmtBufLen ->
   N.of_nat (length fmt) < 4611686018427387904 -> N.of_nat (length gargs) < 4611686018427387904 ->
   Forall gany_wf gargs -> Forall str_ok gargs ->
+  exists cs buf',
+    fprintf fmt (map of_gany gargs) buf = Ok (cs, buf') /\
+    forall FU, (length fmt + length gargs + length (List.concat cs) + 34 < FU)%nat ->
+      exists y,
+        go_kfmt_Fprintf FU (mk_go_kfmt_world tr buf [x]) w fmt gargs
+          = GOk (mk_go_kfmt_world (pushed w cs tr) buf' [y], tt).
+Proof.
+  intros Hb Hfl Hal Hwf Hso.
+  destruct (fprintf_never_panics fmt (map of_gany gargs) buf Hb) as [[cs buf'] E].
+  exists cs, buf'. split; [exact E|].
+  intros FU HFU. unfold fprintf in E.
+  assert (Hfl' : (length fmt < N.to_nat two62)%nat) by (unfold two62; lia).
+  assert (Hal' : (length gargs < N.to_nat two62)%nat) by (unfold two62; lia).
+  destruct (scan_sim FU w fmt gargs Hfl' Hal' ltac:(lia) ltac:(lia) ltac:(lia) Hwf Hso (S (S (length fmt)))) as [Sn _].
+  destruct (Sn 0%nat 0%nat 0%nat buf cs buf' tr x 0 0 FU E ltac:(lia) ltac:(lia) ltac:(lia) ltac:(lia) Hb ltac:(lia) ltac:(lia))
+    as [y Hy].
+  exists y. rewrite fprintf_unfold. exact Hy.
+Qed.
+
+(** the bytes-only corollary: the concatenation of the bytes of the doWrite events is the model's output *)
+Theorem fprintf_translation_bytes w tr buf x fmt gargs :
+  length buf = N.to_nat kfmt_numFmtBufLen ->
+  N.of_nat (length fmt) < 4611686018427387904 -> N.of_nat (length gargs) < 4611686018427387904 ->
+  Forall gany_wf gargs -> Forall str_ok gargs ->
   exists out,
     written (fprintf fmt (map of_gany gargs) buf) = Ok out /\
     forall FU, (length fmt + length gargs + length out + 34 < FU)%nat ->
@@ -372,15 +396,10 @@ Theorem fprintf_is_translation w tr buf x fmt gargs :
         trace_bytes tr' = trace_bytes tr ++ out.
 Proof.
   intros Hb Hfl Hal Hwf Hso.
-  destruct (fprintf_never_panics fmt (map of_gany gargs) buf Hb) as [[cs buf'] E].
+  destruct (fprintf_is_translation w tr buf x fmt gargs Hb Hfl Hal Hwf Hso) as [cs [buf' [E T]]].
   exists (List.concat cs). split; [unfold written; rewrite E; reflexivity|].
-  intros FU HFU. unfold fprintf in E.
-  assert (Hfl' : (length fmt < N.to_nat two62)%nat) by (unfold two62; lia).
-  assert (Hal' : (length gargs < N.to_nat two62)%nat) by (unfold two62; lia).
-  destruct (scan_sim FU w fmt gargs Hfl' Hal' ltac:(lia) ltac:(lia) ltac:(lia) Hwf Hso (S (S (length fmt)))) as [Sn _].
-  destruct (Sn 0%nat 0%nat 0%nat buf cs buf' tr x 0 0 FU E ltac:(lia) ltac:(lia) ltac:(lia) ltac:(lia) Hb ltac:(lia) ltac:(lia))
-    as [y Hy].
-  exists (pushed w cs tr), buf', y. split; [rewrite fprintf_unfold; exact Hy|apply trace_bytes_pushed].
+  intros FU HFU. destruct (T FU HFU) as [y Hy].
+  exists (pushed w cs tr), buf', y. split; [exact Hy|apply trace_bytes_pushed].
 Qed.
 
 (** ---- with C15_fprintf_exact: what the translated Fprintf writes for a well-formed format ---- *)
@@ -402,12 +421,15 @@ Theorem fprintf_trans_render w tr buf x ps gargs :
   N.of_nat (length (encode ps)) < 4611686018427387904 -> N.of_nat (length gargs) < 4611686018427387904 ->
   Forall piece_wf ps -> Forall gany_wf gargs ->
   Forall (fun g => match g with GAStr s | GABytes s => glen s < 4611686018427387904 | _ => True end) gargs ->
-  forall FU, (length (encode ps) + length gargs + length (render ps (map of_gany gargs)) + 34 < FU)%nat ->
-    exists tr' buf' y,
-      go_kfmt_Fprintf FU (mk_go_kfmt_world tr buf [x]) w (encode ps) gargs = GOk (mk_go_kfmt_world tr' buf' [y], tt) /\
-      trace_bytes tr' = trace_bytes tr ++ render ps (map of_gany gargs).
+  exists cs buf',
+    fprintf (encode ps) (map of_gany gargs) buf = Ok (cs, buf') /\
+    List.concat cs = render ps (map of_gany gargs) /\
+    forall FU, (length (encode ps) + length gargs + length (render ps (map of_gany gargs)) + 34 < FU)%nat ->
+      exists y,
+        go_kfmt_Fprintf FU (mk_go_kfmt_world tr buf [x]) w (encode ps) gargs
+          = GOk (mk_go_kfmt_world (pushed w cs tr) buf' [y], tt).
 Proof.
-  intros Hb Hfl Hal Hps Hwf Hstr FU HFU.
+  intros Hb Hfl Hal Hps Hwf Hstr.
   assert (Hso : Forall str_ok gargs).
   { apply Forall_forall. intros g Hg. pose proof (proj1 (Forall_forall _ _) Hstr g Hg) as S.
     destruct g; try exact I; cbn [str_ok]; lia. }
@@ -417,7 +439,9 @@ Proof.
     pose proof (proj1 (Forall_forall _ _) Hstr g Hg) as S.
     destruct g; cbn [of_gany arg_ok] in *; try exact W; try exact I; unfold glen in S;
       change (2 ^ 62)%Z with 4611686018427387904%Z; lia. }
-  destruct (fprintf_is_translation w tr buf x (encode ps) gargs Hb Hfl Hal Hwf Hso) as [out [E T]].
-  rewrite (fprintf_exact_written ps (map of_gany gargs) buf Hps Hok Hb) in E. injection E as <-.
-  exact (T FU HFU).
+  destruct (fprintf_is_translation w tr buf x (encode ps) gargs Hb Hfl Hal Hwf Hso) as [cs [buf' [E T]]].
+  pose proof (fprintf_exact_written ps (map of_gany gargs) buf Hps Hok Hb) as R.
+  unfold written in R. rewrite E in R. cbn [bind fst] in R. injection R as R.
+  exists cs, buf'. split; [exact E|]. split; [exact R|].
+  intros FU HFU. apply T. rewrite R. exact HFU.
 Qed.
